@@ -262,14 +262,14 @@ def run(chk):
     cases.append({"idx": 2000, "maxrun": 1, "procs": 4, "rotate": False, "widen": 0,
                   "plans": [{"text": "*", "start_ms": k * 5, "cancel_ms": -1, "slow_ms": 2500} for k in range(3)]})
     # cancel storms: many queries, most of them cancelled (twice) at random moments while others keep starting
-    for j in range(2 if quick else 10):
+    for j in range(4 if quick else 12):
         plans = []
         for _ in range(90):
             c1 = rnd.choice([0, 1, 2, 3, 5, 8, 13, 20, 30])
             plans.append({"text": rnd.choice(TEXTS), "start_ms": rnd.randrange(0, 60), "cancel_ms": c1 if rnd.random() < 0.85 else -1,
                           "cancel2_ms": c1 + rnd.choice([0, 1, 2]) if rnd.random() < 0.5 else -1,
                           "slow_ms": rnd.choice([0, 40, 120, 300])})
-        cases.append({"idx": nruns + j, "maxrun": [40, 12][j % 2], "procs": [4, 16][j % 2], "rotate": False, "widen": 0, "churn": 4,
+        cases.append({"idx": nruns + j, "maxrun": [40, 12][j % 2], "procs": [4, 16][j % 2], "rotate": False, "widen": 0, "churn": 8,
                       "plans": plans})
 
     def one(c):
